@@ -92,7 +92,9 @@ fn classify(content: &str, name: &str) -> Option<(&'static str, String)> {
     let want = format!("INSIDE:{}", segs.join("/"));
     if content.starts_with("OUTSIDE:") {
         Some(("escaped_base", format!("name {name:?} returned {content:?}, a file outside the base directory")))
-    } else if content == want && clean {
+    } else if (content == want && clean) || (name.starts_with('/') && content.starts_with("INSIDE:") && absolute_spelling(name)) {
+        // an absolute spelling of a file inside the base may be refused or served: either way
+        // nothing outside the base was returned
         None
     } else if content.starts_with("INSIDE:") && !clean {
         Some(("hidden_or_dot_segment_loaded", format!("name {name:?} (with a dot-initial segment) returned {content:?}")))
@@ -100,6 +102,24 @@ fn classify(content: &str, name: &str) -> Option<(&'static str, String)> {
         Some(("wrong_file", format!("name {name:?} returned {content:?}, expected {want:?} or an error")))
     }
 }
+
+/// true for names built from the scratch tree's own absolute path
+fn absolute_spelling(name: &str) -> bool {
+    TREE.get().is_some_and(|t| name.contains(t.root.to_string_lossy().as_ref()))
+}
+
+/// `<<BASE>>` / `<<ROOT>>` stand for the absolute path of the scratch base directory and of its
+/// parent (they differ per process, so cases store the placeholder)
+fn substitute(name: &str) -> String {
+    let t = tree();
+    name.replace("<<BASE>>", &t.base.to_string_lossy())
+        .replace("<<ROOT>>", &t.root.to_string_lossy())
+}
+
+const ABS_PREFIX: [&str; 6] = ["<<BASE>>", "<<ROOT>>", "/<<BASE>>", "<<ROOT>>/base", "<<ROOT>>/bas", "<<ROOT>>/base/../base"];
+const ABS_SUFFIX: [&str; 14] = [
+    "", "/", "2", "2/a.", "2/a/a.", "/a.", "/a/a.", "/../canary", "/../base2/a.", "/canary", "/sibling", "2/%2e%2e", "/a..b/a.", "2/a..b/a.",
+];
 
 impl Names {
     fn check_name(name: &str) -> Verdict {
@@ -265,12 +285,26 @@ impl Part for Names {
                 NameCase { name }
             }),
             2 => noise_name().prop_map(|name| NameCase { name }),
+            // absolute spellings built from the scratch tree's own path: the base itself, its
+            // parent, and siblings whose name extends the base's name
+            1 => (0..ABS_PREFIX.len(), 0..ABS_SUFFIX.len(), prop::collection::vec(0..SEGMENTS.len(), 0..=2)).prop_map(|(p, s, idx)| {
+                let mut name = format!("{}{}", ABS_PREFIX[p], ABS_SUFFIX[s]);
+                for i in idx {
+                    name.push('/');
+                    name.push_str(SEGMENTS[i]);
+                }
+                NameCase { name }
+            }),
         ]
         .boxed()
     }
 
     fn check(c: &NameCase) -> Verdict {
-        Self::check_name(&c.name)
+        let mut v = Self::check_name(&substitute(&c.name));
+        if c.name.contains("<<") {
+            v.labels.push("absolute_spelling_of_tree_path");
+        }
+        v
     }
 }
 
@@ -294,6 +328,11 @@ pub fn enumerate(max: usize) -> Vec<NameCase> {
         }
     }
     rec(&mut cur, max, &mut out);
+    for p in ABS_PREFIX {
+        for s in ABS_SUFFIX {
+            out.push(NameCase { name: format!("{p}{s}") });
+        }
+    }
     out
 }
 
